@@ -35,6 +35,9 @@ def run(ctx):
         for (nc, nk) in combos:
             d = gen.gen_definition(ctx.rng, n_state=ctx.rng.choice([2, 3]), n_control=nc and ctx.rng.choice([1, 2]),
                                    n_calib=nk and ctx.rng.choice([1, 2]), n_sensors=ctx.rng.choice([1, 2]), depth=2)
+            if rep % 2 == 1 and (nc, nk) in ((0, 0), (1, 1)):
+                # terms whose value depends on the sign of a sub-expression (sqrt(t^2), atan2 in the left half plane)
+                gen.force_sign_sensitive(ctx.rng, d)
             d._kind = "ekf"
             if nc:
                 # a control multiplied by a state (the control Jacobian depends on the state, and the state moves in the step)
@@ -69,7 +72,8 @@ def run(ctx):
     built = cppgen.build_many(jobs)
     drv = core.Driver()
     pending = []
-    for (d, ekf, process, sensor, cal, k, cfgdesc), (exe, err) in zip(metas, built):
+    last_inn = {}
+    for fi, ((d, ekf, process, sensor, cal, k, cfgdesc), (exe, err)) in enumerate(zip(metas, built)):
         if exe is None:
             ctx.fail("generated-cpp-does-not-compile", "generated filter does not compile: " + err[-500:], cfgdesc)
             continue
@@ -91,7 +95,15 @@ def run(ctx):
             cur = {"dt": F(ctx.rng.randint(1, 16), 160), "state": x, "cal": cal,
                    "control": {s: gen.dyadic(ctx.rng) for s in Lc}}
             st = ekf.State(**x)
-            cv = ekf.Covariance.from_data(P.copy())
+            if step == 0:
+                # a diagonal prior given through the NAMED variance fields, one variance exactly zero (a surveyed coordinate)
+                diag = {s2: (0.0 if j2 == 0 else float(ctx.rng.choice([0.25, 1.0, 2.5]))) for j2, s2 in enumerate(Ls)}
+                P = np.diag([diag[s2] for s2 in Ls])
+                cv = ekf.Covariance(**diag)
+                do_update = False
+                ctx.count("named_diagonal_prior_with_zero")
+            else:
+                cv = ekf.Covariance.from_data(P.copy())
             case = dict(cfgdesc, step=step, state=x, P=P.tolist(), control={a: str(b) for a, b in cur["control"].items()}, dt=str(cur["dt"]))
             try:
                 if do_update:
@@ -107,6 +119,7 @@ def run(ctx):
                         r = ekf.sensor_model(st, cv, sensor_key=key, sensor_reading=ekf.make_reading(key, **z))
                     py = {"state": fk.by_name(r.state), "cov": np.asarray(r.covariance.data, dtype=float),
                           "inn": np.asarray(ekf.innovations[key], dtype=float).reshape(-1).tolist(), "rejected": r.state is st}
+                    last_inn[(fi, key)] = list(py["inn"])
                     S = np.asarray(ekf.sensor_prediction_uncertainty[key], dtype=float)
                     y = np.asarray(ekf.innovations[key], dtype=float)
                     nis = float((y.T @ np.linalg.inv(S) @ y).item())
@@ -161,6 +174,20 @@ def run(ctx):
                 pending.append((drv.add(op), do_update, near, py, cs, cP, float(np.max(np.abs(cv.data))), case))
             x = {s: float(py["state"][s]) for s in Ls}
             P = 0.5 * (py["cov"] + py["cov"].T)
+    # every Python filter object keeps its OWN record of the last innovation per sensor (as every C++ filter object does): after
+    # all the other filters have run, each one still holds what it recorded itself, and nothing for sensors it never updated
+    for fi, (d, ekf, process, sensor, cal, k, cfgdesc) in enumerate(metas):
+        for key in sorted(d.sensors):
+            case = dict(cfgdesc, op=f"stored-innovation:{key}", filter_index=fi)
+            ctx.case(case, True); ctx.count("stored_innovation_revisited")
+            mine = last_inn.get((fi, key))
+            have = np.asarray(ekf.innovations[key], dtype=float).reshape(-1).tolist() if key in ekf.innovations else None
+            if mine is None and have is not None:
+                ctx.fail("py-cpp-innovation:never-updated", f"a Python filter that never processed sensor {key} reports a stored innovation {have} "
+                         "(the C++ filter reports none)", case)
+            elif mine is not None and have != mine:
+                ctx.fail("py-cpp-innovation:overwritten", f"the innovation a Python filter recorded for {key} ({mine}) reads {have} after other "
+                         "filter objects were used", case)
     ans = drv.run()
     for idx, is_update, near, py, cs, cP, prior_mag, info in pending:
         a = ans[idx]
